@@ -93,12 +93,14 @@ def bounds(tier, seed):
             'characters, truncation at every position; signature/payload swaps; foreign secret'}
 
 
-FLOORS = {'reused_request': 20000, 'via_redirect': 200, 'plain_roundtrips': 500, 'signed_roundtrips': 20, 'tampered': 50000, 'quoted_values': 300}
+FLOORS = {'via_reused_object': 100, 'reused_request': 20000, 'via_redirect': 200, 'plain_roundtrips': 500, 'signed_roundtrips': 20, 'tampered': 50000, 'quoted_values': 300}
 
 
 def emit_cookie(om, name, value, secret, via_redirect=False):
     """Serve a request whose handler sets the cookie (optionally followed by redirect(), which answers with a COPY of the
     response); return the cookie-pair string of the Set-Cookie header."""
+    if via_redirect in ('reused', 'reused-raise'):
+        return emit_reused(om, name, value, secret, via_redirect == 'reused-raise')
     app = om.default_app() if via_redirect else om.Ombott()
     err = {}
 
@@ -118,6 +120,33 @@ def emit_cookie(om, name, value, secret, via_redirect=False):
     if c.code != (303 if via_redirect else 200) or len(sc) != 1:
         return None, f'status {c.status}, {len(sc)} Set-Cookie headers'
     return cookie_pair(sc[0]), None
+
+
+def emit_reused(om, name, value, secret, raised):
+    """The cookie is set once on a prepared HTTPResponse object which the handler returns (or raises) for every request:
+    the cookie-pair of the SECOND answer (it must be there again, the same as in the first)."""
+    app = om.Ombott()
+    try:
+        prepared = om.HTTPResponse('welcome', 200)
+        prepared.set_cookie(name, value, secret=secret)
+    except Exception as e:   # noqa
+        return None, f'set_cookie raised {type(e).__name__}: {e}'
+
+    def h():
+        if raised:
+            raise prepared
+        return prepared
+    app.route('/set', 'GET', h)
+    pairs = []
+    for _ in (1, 2):
+        c = wsgi.call(app, wsgi.environ('GET', '/set'))
+        sc = c.headers_all('Set-Cookie')
+        if c.code != 200 or len(sc) != 1:
+            return None, f'answer #{_} of a prepared response object: status {c.status}, {len(sc)} Set-Cookie headers'
+        pairs.append(cookie_pair(sc[0]))
+    if pairs[0] != pairs[1]:
+        return None, f'a prepared response object sent {pairs[0]!r} first and {pairs[1]!r} the second time'
+    return pairs[1], None
 
 
 def cookie_pair(set_cookie):
@@ -197,14 +226,16 @@ def work(spec):
                 case = {'kind': 'plain', 'name': name, 'value': v}
                 core.track(res, case)
                 res['states'] += 1
-                via = (i % 3 == 1)
+                via = [False, True, 'reused', False, True, 'reused-raise'][i % 6]
                 case['redirect'] = via
                 pair, err = emit_cookie(om, name, v, None, via)
                 if err:
                     core.add_violation(res, case, f'plain {v!r}: {err}', sig='plain:emit')
                     continue
-                if via:
+                if via is True:
                     c['via_redirect'] += 1
+                elif via:
+                    c['via_reused_object'] += 1
                 got = read_wsgi(om, pair, name, None)
                 res['transitions'] += 2
                 c['plain_roundtrips'] += 1
@@ -278,6 +309,13 @@ def work(spec):
             if err_r or got_r != value:
                 core.add_violation(res, dict(case0, redirect=True), f'signed cookie {name}={value!r} set before redirect(): sent back as {pair_r!r} reads {got_r!r}',
                                    sig='signed:roundtrip-redirect')
+            for mode in ('reused', 'reused-raise'):
+                pair_o, err_o = emit_cookie(om, name, value, secret, mode)
+                got_o = read_wsgi(om, pair_o, name, secret) if not err_o else err_o
+                c['via_reused_object'] += 1
+                if err_o or got_o != value:
+                    core.add_violation(res, dict(case0, redirect=mode), f'signed cookie {name}={value!r} set on a prepared response object ({mode}): {err_o or ("sent back as %r reads %r" % (pair_o, got_o))}',
+                                       sig='signed:roundtrip-reused-object')
             before = proxy.loads_calls
             got = read_wsgi(om, pair, name, secret)
             res['states'] += 1
@@ -406,7 +444,7 @@ def replay(case):
                         f'{v2!r} (a fresh request reads {got!r}); after a read and del request["HTTP_COOKIE"] it reads {v3!r}')
             if got == case['value'] or case['value'] == '':
                 return None
-            return (f'response.set_cookie({case["name"]!r}, {case["value"]!r}){" followed by redirect()" if case.get("redirect") else ""} emits {pair!r}; sent back as the Cookie header, '
+            return (f'response.set_cookie({case["name"]!r}, {case["value"]!r}){" followed by redirect()" if case.get("redirect") is True else (" on a prepared HTTPResponse object that is " + ("raised" if case.get("redirect") == "reused-raise" else "returned") + " for two requests (second answer)" if case.get("redirect") else "")} emits {pair!r}; sent back as the Cookie header, '
                     f'request.get_cookie reads {got!r}')
         if case['kind'] == 'swap':
             proxy.armed = True
